@@ -664,7 +664,7 @@ def verify_prerequisites(prog, rep, eng):
     # plain mode produces no domains / wild-cards
     sub6 = R("p6")
     c05.check_tokenizer(prog, sub6)
-    out["plain-mode-no-domains"] = all(i.verdict == "ok" for i in sub6.instances if i.rule == "C05-R3") and sum(1 for i in sub6.instances if i.rule == "C05-R3") >= 12
+    out["plain-mode-no-domains"] = all(i.verdict == "ok" for i in sub6.instances if i.rule == "C05-R3") and sum(1 for i in sub6.instances if i.rule == "C05-R3") >= 9
     # closed results: C03-R3 (projection of own variables, cache admission)
     sub7 = R("p7")
     if en.ok():
